@@ -17,9 +17,11 @@ import (
 	"math/rand"
 	"os"
 	"runtime"
+	"sort"
 	"strconv"
 	"strings"
 	"sync"
+	"sync/atomic"
 	"testing"
 	"time"
 )
@@ -140,6 +142,246 @@ func vC16LHistory(r *rand.Rand, maxSize int, keyOf func(i int) uint64, nops int,
 		"desc": map[string]any{"name": name, "maxSize": maxSize, "ops": nops, "evictions": evictions, "hits": hits, "final": s.Len()}}
 }
 
+type vC16LRec struct {
+	c        map[string]any
+	overlap  int
+	rejected bool
+}
+
+// every rejected history (at most 4) and the `emit` with the most overlapping calls
+func vC16LPick(all []vC16LRec, emit int) []map[string]any {
+	sort.SliceStable(all, func(a, b int) bool {
+		if all[a].rejected != all[b].rejected {
+			return all[a].rejected
+		}
+		return all[a].overlap > all[b].overlap
+	})
+	var out []map[string]any
+	nrej := 0
+	for _, x := range all {
+		if x.rejected {
+			if nrej++; nrej > 4 {
+				continue
+			}
+		} else if len(out)-min(nrej, 4) >= emit {
+			break
+		}
+		out = append(out, x.c)
+	}
+	return out
+}
+
+// one recorded history as a CaseLimC and the Go-side verdict on it
+func vC16LJudge(kind string, maxSize, nkeys int, ops []vC16LGop, s *LimiterStore) (map[string]any, int, bool) {
+	ids := map[*limiter]uint64{}
+	byKey := map[uint64]*limiter{}
+	owner := map[*limiter]uint64{}
+	goFail := ""
+	for _, o := range ops {
+		if _, ok := ids[o.l]; !ok {
+			ids[o.l] = uint64(len(ids) + 1)
+		}
+		if l, ok := byKey[o.k]; ok && l != o.l && goFail == "" {
+			goFail = fmt.Sprintf("maxSize %d, %d keys in play: two Gets of key %d returned different limiters although nothing had to be evicted", maxSize, nkeys, o.k)
+		}
+		byKey[o.k] = o.l
+		if k2, ok := owner[o.l]; ok && k2 != o.k && goFail == "" {
+			goFail = fmt.Sprintf("keys %d and %d share one limiter", k2, o.k)
+		}
+		owner[o.l] = o.k
+	}
+	if s.Len() != nkeys && goFail == "" {
+		goFail = fmt.Sprintf("maxSize %d, %d keys in play, every one asked for: Len()=%d", maxSize, nkeys, s.Len())
+	}
+	sorted := append([]vC16LGop(nil), ops...)
+	sort.Slice(sorted, func(a, b int) bool { return sorted[a].call < sorted[b].call })
+	overlap := 0
+	for i := 1; i < len(sorted); i++ {
+		if sorted[i].call < sorted[i-1].ret {
+			overlap++
+		}
+	}
+	var gops, descs []string
+	for _, o := range ops {
+		gops = append(gops, fmt.Sprintf("Gop %d %d %d %d %d", o.tid, o.k, ids[o.l], o.call, o.ret))
+		descs = append(descs, fmt.Sprintf("t%d Get(%d)->limiter %d @[%d,%d]", o.tid, o.k, ids[o.l], o.call, o.ret))
+	}
+	runtime.KeepAlive(ops)
+	ms := strconv.Itoa(maxSize)
+	if maxSize < 0 {
+		ms = "(" + ms + ")"
+	}
+	return map[string]any{
+		"k": kind, "coq": "CaseLimC " + ms + " [" + strings.Join(gops, "; ") + "]", "go_fail": goFail,
+		"nontrivial": overlap > 0, "desc": map[string]any{"maxSize": maxSize, "keys": nkeys, "overlapping_pairs": overlap, "final": s.Len(), "history": strings.Join(descs, " | ")}}, overlap, goFail != ""
+}
+
+// Corpus (corpus/C16/limiter_bursts.json): fixed first-sight bursts replayed first on every
+// run — a store with `prefill` known keys and room for exactly one more, `workers`
+// goroutines released together that all Get the same new key, `repeats` times; every
+// repeat is one recorded history (CaseLimC).
+type vC16LBurstScript struct {
+	Name    string   `json:"name"`
+	MaxSize int      `json:"maxSize"`
+	Prefill []uint64 `json:"prefill"`
+	Key     uint64   `json:"key"`
+	Workers int      `json:"workers"`
+	Repeats int      `json:"repeats"`
+}
+
+func vC16LBursts(path string) []map[string]any {
+	b, err := os.ReadFile(path)
+	if err != nil {
+		return nil
+	}
+	var scripts []vC16LBurstScript
+	if json.Unmarshal(b, &scripts) != nil {
+		return []map[string]any{{"k": "corpus-limiter", "go_fail": "corpus file limiter_bursts.json does not parse", "nontrivial": false}}
+	}
+	var out []map[string]any
+	for _, sc := range scripts {
+		var all []vC16LRec
+		for rep := 0; rep < sc.Repeats; rep++ {
+			s := NewLimiterStore(sc.MaxSize, 10)
+			var clk, arrive atomic.Int64
+			var ops []vC16LGop
+			for _, k := range sc.Prefill {
+				o := vC16LGop{tid: sc.Workers, k: k, call: clk.Add(1)}
+				o.l = s.Get(k)
+				o.ret = clk.Add(1)
+				ops = append(ops, o)
+			}
+			hist := make([]vC16LGop, sc.Workers)
+			var wg sync.WaitGroup
+			for w := 0; w < sc.Workers; w++ {
+				wg.Add(1)
+				go func(w int) {
+					defer wg.Done()
+					arrive.Add(1)
+					for spin := 0; arrive.Load() < int64(sc.Workers) && spin < 1<<22; spin++ {
+						if spin&255 == 255 {
+							runtime.Gosched()
+						}
+					}
+					o := vC16LGop{tid: w, k: sc.Key, call: clk.Add(1)}
+					o.l = s.Get(sc.Key)
+					o.ret = clk.Add(1)
+					hist[w] = o
+				}(w)
+			}
+			wg.Wait()
+			ops = append(ops, hist...)
+			for _, k := range append(append([]uint64(nil), sc.Prefill...), sc.Key) {
+				o := vC16LGop{tid: sc.Workers + 1, k: k, call: clk.Add(1)}
+				o.l = s.Get(k)
+				o.ret = clk.Add(1)
+				ops = append(ops, o)
+			}
+			c, overlap, rejected := vC16LJudge("corpus-limiter-burst", sc.MaxSize, len(sc.Prefill)+1, ops, s)
+			c["desc"].(map[string]any)["script"] = sc.Name
+			all = append(all, vC16LRec{c: c, overlap: overlap, rejected: rejected})
+		}
+		out = append(out, vC16LPick(all, 2)...)
+	}
+	return out
+}
+
+// Recorded concurrent histories of LimiterStore.Get (CaseLimC).  A store with maxSize
+// entries and at most max(maxSize,1) distinct keys in play, so that no call has a reason
+// to evict: some keys are stored beforehand (sequentially), then `workers` goroutines,
+// lined up by a spin barrier before every call, Get mostly ONE key the store has not seen
+// yet (a burst from a new client) and now and then another one; afterwards one more Get
+// per key and Len().  Every call is stamped with a logical clock before and after and
+// carries the identity of the limiter it returned.  Run.v looks for an order of the calls
+// that respects "returned before the other was called" and that the Limiter.v model
+// (lstep, no eviction) accepts call by call; the observation-only oracle wants one
+// limiter per key and no limiter under two keys.  Go-side: the same plus Len() = number
+// of keys in play.  Every rejected round (at most 4) and the `emit` rounds with the most
+// overlapping calls are written out.
+type vC16LGop struct {
+	tid       int
+	k         uint64
+	l         *limiter
+	call, ret int64
+}
+
+func vC16LConcurrent(seed int64, rounds, emit, workers, perWorker int) []map[string]any {
+	var all []vC16LRec
+	for round := 0; round < rounds; round++ {
+		rr := rand.New(rand.NewSource(seed*6151 + int64(round)))
+		maxSize := []int{0, 1, 2, 3, 4, 8, 64}[rr.Intn(7)]
+		nkeys := vC16LBound(maxSize)
+		if nkeys > 5 {
+			nkeys = 2 + rr.Intn(4)
+		} else if nkeys > 1 && rr.Intn(4) == 0 {
+			nkeys-- // sometimes one below the capacity
+		}
+		keys := make([]uint64, nkeys)
+		for i := range keys {
+			keys[i] = uint64(i) * 7919
+			if i > 0 && rr.Intn(2) == 0 {
+				keys[i] = rr.Uint64()
+			}
+		}
+		s := NewLimiterStore(maxSize, 10)
+		var clk, arrive atomic.Int64
+		var ops []vC16LGop
+		hot := rr.Intn(nkeys)
+		// every key but the hot one is usually known already
+		for i, k := range keys {
+			if i != hot && rr.Intn(4) > 0 {
+				o := vC16LGop{tid: workers, k: k, call: clk.Add(1)}
+				o.l = s.Get(k)
+				o.ret = clk.Add(1)
+				ops = append(ops, o)
+			}
+		}
+		hist := make([][]vC16LGop, workers)
+		var wg sync.WaitGroup
+		start := make(chan struct{})
+		for w := 0; w < workers; w++ {
+			wg.Add(1)
+			go func(w int) {
+				defer wg.Done()
+				r := rand.New(rand.NewSource(seed*104729 + int64(round)*977 + int64(w)))
+				<-start
+				for n := 0; n < perWorker; n++ {
+					arrive.Add(1)
+					for spin := 0; arrive.Load() < int64(workers*(n+1)) && spin < 1<<22; spin++ {
+						if spin&255 == 255 {
+							runtime.Gosched()
+						}
+					}
+					k := keys[hot]
+					if r.Intn(5) == 0 {
+						k = keys[r.Intn(nkeys)]
+					}
+					o := vC16LGop{tid: w, k: k, call: clk.Add(1)}
+					o.l = s.Get(k)
+					o.ret = clk.Add(1)
+					hist[w] = append(hist[w], o)
+				}
+			}(w)
+		}
+		close(start)
+		wg.Wait()
+		conc := 0
+		for _, h := range hist {
+			ops = append(ops, h...)
+			conc += len(h)
+		}
+		for _, k := range keys {
+			o := vC16LGop{tid: workers + 1, k: k, call: clk.Add(1)}
+			o.l = s.Get(k)
+			o.ret = clk.Add(1)
+			ops = append(ops, o)
+		}
+		c, overlap, rejected := vC16LJudge("limiter-conc", maxSize, nkeys, ops, s)
+		all = append(all, vC16LRec{c: c, overlap: overlap, rejected: rejected})
+	}
+	return vC16LPick(all, emit)
+}
+
 func TestVerifC16Limiter(t *testing.T) {
 	p := os.Getenv("VERIF_OUT")
 	if p == "" {
@@ -176,6 +418,11 @@ func TestVerifC16Limiter(t *testing.T) {
 			}
 		}
 	}
+	if dir := os.Getenv("VERIF_CORPUS"); dir != "" {
+		for _, c := range vC16LBursts(dir + "/limiter_bursts.json") {
+			emit(c)
+		}
+	}
 	sizes := []int{-1, 0, 1, 2, 3, 5, 7, 16, 40}
 	for c := 0; c < n; c++ {
 		maxSize := sizes[r.Intn(len(sizes))]
@@ -197,6 +444,14 @@ func TestVerifC16Limiter(t *testing.T) {
 			}
 			return uint64(r.Intn(keys))
 		}, maxSize+60+r.Intn(40), fmt.Sprintf("big-%d", c)))
+	}
+	// recorded concurrent histories (first-sight bursts on a store that has room)
+	crounds, cemit := 3000, 30
+	if os.Getenv("VERIF_TIER") == "thorough" {
+		crounds, cemit = 30000, 300
+	}
+	for _, c := range vC16LConcurrent(seed, crounds, cemit, 3, 3) {
+		emit(c)
 	}
 	// concurrent Gets: bound and identity at quiescence
 	for round := 0; round < 4; round++ {
